@@ -130,7 +130,9 @@ def translation_lines(da, tier_: str) -> list[dict[str, Any]]:
     tid = 500000
     c = da.client()
     ast = datetime.datetime(2024, 3, 5, 11, 0, 0, tzinfo=datetime.timezone.utc)
-    for now_off, err_off in ((600.0, 590), (600.0, 598), (601.5, 596), (3000.0, 2990), (3000.0, 2999), (86.0, 80)):
+    # the later offsets are far enough from the start for the audio (3.99898 s) and video (4 s) segment grids to disagree
+    for now_off, err_off in ((600.0, 590), (600.0, 598), (601.5, 596), (3000.0, 2990), (3000.0, 2999), (86.0, 80),
+                             (7203.0, 7195), (40000.0, 39990), (46700.0, 46690)):      # all on availabilityStartTime's own day: positions are times of day
         now = ast + datetime.timedelta(seconds=now_off)
         tm = ast + datetime.timedelta(seconds=err_off)
         da.clock.set(now)
